@@ -64,7 +64,7 @@ pub fn pretty(addr: &str) -> String {
     LABELS.iter().find(|l| a(l) == addr).map(|l| l.to_string()).unwrap_or_else(|| addr.to_string())
 }
 
-fn pretty_map(m: &BTreeMap<String, u64>) -> Vec<(String, u64)> {
+pub fn pretty_map(m: &BTreeMap<String, u64>) -> Vec<(String, u64)> {
     m.iter().map(|(k, v)| (pretty(k), *v)).collect()
 }
 
